@@ -8,7 +8,7 @@ Decided on the MIR of every non-derived function of lib and bin:
 `unwrap` / `expect` are not swallowing (they are panic sites and belong to C07's census)."""
 import json
 from . import mir
-from .mir import callee
+from .mir import callee, Prov
 
 SWALLOW = ("ok", "err", "unwrap_or", "unwrap_or_default", "unwrap_or_else", "map_or", "map_or_else", "or", "or_else", "is_ok", "is_err",
            "iter", "into_iter")
@@ -181,3 +181,52 @@ def rule_stream(ctx, rule_id):
                        "LF, at most a final newline added) — lines are doubled, dropped or changed, so diagnostics name other lines and "
                        "multi-line strings differ from the same text evaluated through the library" % (text, d["stream"]), where_of(f))
     return decided
+
+
+# ------------------------------------------------------------------------------------------------ partial writes / reads
+
+def rule_io_amounts(ctx, rule_id):
+    """`Write::write` / `Read::read` may transfer fewer bytes than asked and say how many: a call whose count is thrown away (only
+    the error case is looked at) silently loses the rest of the text.  (`write_all`, `write_fmt`, `print!` loop until everything is
+    out.)  Contract of std::io, decided on the data flow of the returned count."""
+    fb = ctx.fb()
+    from .ctx import where_of
+    n = 0
+    for f in fb.all("lib") + fb.all("bin"):
+        p = None
+        for b, t in f.calls():
+            c = callee(t) or ""
+            if not (c.endswith("io::Write>::write") or c.endswith("io::Write::write") or c.endswith("io::Read>::read") or c.endswith("io::Read::read")):
+                continue
+            n += 1
+            p = p or Prov(f)
+            origin = ("call", b, c)
+            # the count itself: the usize locals that come out of this call's result (the error half goes its own way)
+            derived = {l for l in range(len(f.locals)) if origin in p.roots(l) and (f.local_ty(l) or "").replace("&", "").strip() == "usize"}
+            used = False
+            if not derived:
+                # the result is not taken apart here (handed on whole): whoever gets it can look at the count
+                used = any(origin in p.roots(l) for l in (0,))
+            for bb, i, st in f.stmts():
+                if st["k"] == "assign" and st["rv"]["k"] in ("binop", "unop", "cast"):
+                    if any(pl["local"] in derived for pl in mir.rv_places(st["rv"])):
+                        used = True
+            for bb, tt in f.calls():
+                if bb == b:
+                    continue
+                cc = callee(tt) or ""
+                if cc.endswith("Try>::branch") or cc.endswith("Try::branch") or cc.endswith("from_residual") or cc.endswith("::drop") or \
+                        cc.endswith("FromResidual>::from_residual"):
+                    continue
+                if any(mir.op_local(a) in derived for a in tt["args"]):
+                    used = True
+            if 0 in derived:
+                used = True                    # handed to the caller, who can look at it
+            key = "io-amount/%s/%s" % (f.name, c.rsplit("::", 1)[-1])
+            ctx.inst(rule_id, key, {"count_used": used})
+            ctx.oblige(used)
+            if not used:
+                ctx.report(rule_id, key, "%s calls %s and throws the returned byte count away: when the stream takes only part of the text "
+                           "(standard output is line-buffered with a small buffer; a pipe may be full) the rest is lost without any error — "
+                           "what the program displayed is not what is written" % (f.name, c), where_of(f, t))
+    return n
